@@ -437,6 +437,7 @@ impl StyleData {
     /// Add some CSS source to be included.  The source will be parsed
     /// and the relevant and supported features extracted.
     fn do_add_css(css: &str, rules: &mut Vec<Ruleset>) -> Result<()> {
+        verif_tick!(Step);
         let (_, ss) = parser::parse_stylesheet(css).map_err(|_| crate::Error::CssParseError)?;
 
         for rule in ss {
@@ -494,6 +495,7 @@ impl StyleData {
         handle: &Handle,
         _use_doc_css: bool,
     ) -> ComputedStyle {
+        verif_tick!(Step);
         let mut result = parent_style.inherit();
 
         for (origin, ruleset) in [
